@@ -5,7 +5,8 @@ from .. import gram
 from ..runner import sut, expect
 
 ID = 'C04'
-RULE = ('cases: (a) exhaustive enumeration of all grammar ASTs up to a node bound over names {A,B}, '
+RULE = ('[ring ids may be closed and re-opened on the same node; annotation values with blanks and parentheses; look-alike free keys] '
+        'cases: (a) exhaustive enumeration of all grammar ASTs up to a node bound over names {A,B}, '
         'bond symbols {none,=,.}, nesting depth <=2, at most one ring bond (digit and %nn marker, every '
         'non-adjacent pair, every ring symbol); (b) Hypothesis-driven random ASTs (size classes up to 24 '
         'nodes, nesting <=4, <=3 simultaneously open rings, digit/%n/%0n/%nnn markers with reuse, all five '
